@@ -53,3 +53,11 @@ def gen_grammar(items):
             raise Fail(f'{g}: slop is no longer `preceded(char(\'~\'), uN)`')
         return D('GRAMMAR_SLOP_BITS', int(m.group(1)[1:]), 'slop_or_prefix_val: width of the slop integer')
     items.append(slop_bits)
+
+    def set_loop_guard():
+        # does `set_infallible` make progress when a round consumes nothing
+        body = fn_body(g, 'set_infallible')
+        guarded = 1 if re.search(r'rest\.len\(\)\s*==\s*inp\.len\(\)', body) else 0
+        return D('GRAMMAR_SET_LOOP_GUARD', guarded,
+                 'fn set_infallible: 1 = a round that consumes nothing skips one character, 0 = it loops forever')
+    items.append(set_loop_guard)
